@@ -742,3 +742,31 @@ RECIPES += [
      "_decode_format: a little-endian 64-bit file (record length 48) is taken for big-endian"),
     ("C04", "neutral", [], F_, "            if reclen <= 48:\n", "            if reclen in (24, 48):\n", "_decode_format: the two admissible record lengths as a tuple"),
 ]
+
+
+# ---- pass 5 (round-5 seeds L, P): R8 by value on a finite world of sparse patterns; R3 follows str.split() on adjacent fixed-width fields
+_HL = "                L = int(line[c_slice]) - 1  # L\n                r = int(line[r_slice]) - 1  # irow-1\n"
+_SY = "                np.all(cl[sortl] == ru[sortu])\n                and np.all(rl[sortl] == cu[sortu])\n"
+RECIPES += [
+    ("C04", "break", ["C04-R3"], F_, _HL, "                L, r = map(int, line.split())\n                L -= 1\n                r -= 1\n",
+     "_rd_bigmat_ascii: string header (two I8 fields) tokenised with split(): the fields touch from row 10^7 on"),
+    ("C04", "break", ["C04-R3"], F_, _HL, "                L, r = (int(w) - 1 for w in line.split())\n",
+     "_rd_bigmat_ascii: string header tokenised with split() in a generator"),
+    ("C04", "break", ["C04-R3"], F_, _HL, "                words = line.split()\n                L = int(words[0]) - 1\n                r = int(words[1]) - 1\n",
+     "_rd_bigmat_ascii: string header tokenised with split(), words picked by index"),
+    ("C04", "neutral", [], F_, _HL, "                L = int(line[:8]) - 1\n                r = int(line[8:16]) - 1\n",
+     "_rd_bigmat_ascii: string header cut by literal columns"),
+    ("C04", "neutral", [], F_, _HL, "                L, r = int(line[slice(0, 8)]) - 1, int(line[slice(8, 16)]) - 1\n",
+     "_rd_bigmat_ascii: string header cut with inline slice objects, tuple assignment"),
+    ("C04", "break", ["C04-R8"], F_, _SY, "                np.all(rl[sortl] == cu[sortu])\n",
+     "_is_symmetric: cols(lower) == rows(upper) no longer compared (entries (1,0),(3,2),(0,1),(0,3) pass)"),
+    ("C04", "break", ["C04-R8"], F_, _SY, "                np.all(cl[sortl] == ru[sortu])\n",
+     "_is_symmetric: rows(lower) == cols(upper) no longer compared (entries (2,0),(1,2) pass)"),
+    ("C04", "break", ["C04-R8"], F_, "            sortu = np.lexsort((ru, cu))\n", "            sortu = np.lexsort((cu, ru))[::-1]\n",
+     "_is_symmetric: upper triangle sorted by (row, col) descending: mirrored entries no longer line up"),
+    ("C04", "break", ["C04-R8"], F_, "            low = r > c  # values in lower triangle\n", "            low = r >= c  # values in lower triangle\n",
+     "_is_symmetric: diagonal entries counted with the lower triangle (a symmetric matrix with a diagonal entry is called unsymmetric)"),
+    ("C04", "neutral", [], F_, "            sortl = np.lexsort((cl, rl))\n            sortu = np.lexsort((ru, cu))\n",
+     "            sortl = np.lexsort((rl, cl))\n            sortu = np.lexsort((cu, ru))\n",
+     "_is_symmetric: both triangles sorted the other way round (lower by (col, row), upper by (row, col)): mirrored entries still line up"),
+]
